@@ -29,6 +29,9 @@ class TraceDivergence(Exception):
         self.index, self.want, self.got = index, want, got
 
 
+_TRUNCATING = ('clip', 'minimum', 'maximum', 'fmin', 'fmax', 'absolute', 'fabs')      # ufunc names (np.clip itself is a wrapper)
+
+
 class NoiseArray(np.ndarray):
     """Noise returned by normal()/laplace(); intercepts the addition that releases a statistic."""
 
@@ -61,6 +64,14 @@ class NoiseArray(np.ndarray):
                 val = plain[i] * c if ufunc is np.multiply else plain[i] / c
                 m = mult * abs(c) if ufunc is np.multiply else mult / abs(c)
                 return NoiseArray(val, sim, ev, m)
+        if sim is not None and method == '__call__' and out is None and ufunc.__name__ in _TRUNCATING and not ev.get('released') and isinstance(inputs[0], NoiseArray):
+            # the draw is truncated / folded before it is added to the statistic: still the noise of this event (the release is
+            # intercepted as usual), but no longer a Gaussian / Laplace variable - recorded for the privacy ledger
+            val = getattr(ufunc, method)(*plain, **kwargs)
+            if np.shape(val) == np.shape(plain[0]):
+                ev.setdefault('truncated', []).append(ufunc.__name__)
+                return NoiseArray(val, sim, ev, mult)
+            return val
         if sim is not None:
             sim.untracked.append('%s.%s on noise of event %d' % (ufunc.__name__, method, ev['i']))
         if out is not None:
